@@ -16,8 +16,11 @@ pub const TIMEOUT: u64 = 1000;
 
 #[derive(Clone, Debug, Serialize, Deserialize, PartialEq)]
 pub enum TaskKind {
-    /// user READ of class 0; the planned answer has this many fragments (1..=3)
+    /// user READ of class 0; the planned answer has this many fragments (1..=3, or around 17 / 33 where the
+    /// 4-bit sequence number comes back to the request's)
     Read(u8),
+    /// the start-up integrity poll of the association is the outstanding task (planned fragments)
+    Startup(u8),
     /// DIRECT_OPERATE of one CROB
     Command,
     LinkStatus,
@@ -59,6 +62,9 @@ pub struct Case {
     pub task: TaskKind,
     pub items: Vec<Item>,
     pub decode: u8,
+    /// number of expected fragments delivered in a row before `items` start (long series)
+    #[serde(default)]
+    pub prefix: u8,
 }
 
 pub struct Accept;
@@ -68,16 +74,16 @@ impl Prop for Accept {
     const ID: &'static str = "C15";
     const NAME: &'static str = "accept";
     fn rule() -> &'static str {
-        "an outstanding user READ (answer planned as 1-3 fragments), DIRECT_OPERATE command, link status check, or nothing; response streams mixing the expected fragment, one-deviation variants (every wrong sequence number, foreign / unknown source, FIR flipped, no CON on a non-final fragment, FIN flipped, UNS bit, IIN2 error bits, truncated / unknown objects, non-response function), unsolicited responses (new, duplicate, with/without data and CON, unknown source) and silences; oracle from the statement: success only with a complete in-order series from the addressed outstation (and always when nothing but ignorable traffic interferes), the handler sees begin/objects-in-wire-order/end exactly once per accepted fragment and never for a rejected one, every accepted CON fragment is confirmed exactly once with the same sequence number and UNS bit before the next request, a duplicate unsolicited response is confirmed but not delivered; non-trivial = >= 1 one-deviation fragment while a task is outstanding"
+        "an outstanding user READ or start-up integrity poll (answer planned as 1-3 fragments, or 16-18 / 32-34 so that the series passes the wrap of the 4-bit sequence number), DIRECT_OPERATE command, link status check, or nothing; response streams mixing the expected fragment, one-deviation variants (every wrong sequence number, foreign / unknown source, FIR flipped, no CON on a non-final fragment, FIN flipped, UNS bit, IIN2 error bits, truncated / unknown objects, non-response function), unsolicited responses (new, duplicate, with/without data and CON, unknown source) and silences; oracle from the statement: success only with a complete in-order series from the addressed outstation (and always when nothing but ignorable traffic interferes), the handler sees begin/objects-in-wire-order/end exactly once per accepted fragment and never for a rejected one, every accepted CON fragment is confirmed exactly once with the same sequence number and UNS bit before the next request, a duplicate unsolicited response is confirmed but not delivered; while the start-up poll is outstanding an unsolicited response may be ignored or accepted but confirmed <=> delivered, never twice, and a later repeat of an ignored one is delivered; non-trivial = >= 1 one-deviation fragment while a task is outstanding"
     }
     fn cases(tier: Tier) -> u32 {
         match tier {
-            Tier::Quick => 30_000,
-            Tier::Thorough => 3_000_000,
+            Tier::Quick => 300_000,
+            Tier::Thorough => 12_000_000,
         }
     }
     fn floors() -> Vec<(&'static str, u32)> {
-        vec![("task_succeeded", 100), ("task_failed", 100), ("unsol_duplicate", 20), ("multi_fragment_read", 50)]
+        vec![("task_succeeded", 100), ("task_failed", 100), ("unsol_duplicate", 20), ("multi_fragment_read", 50), ("series_past_seq_wrap", 20), ("startup_poll_outstanding", 50), ("unsol_ignored_then_repeated", 2)]
     }
     fn strategy(_tier: Tier) -> BoxedStrategy<Case> {
         let dev = prop_oneof![
@@ -96,12 +102,23 @@ impl Prop for Accept {
         let item = prop_oneof![
             6 => any::<bool>().prop_map(Item::Good),
             4 => dev.prop_map(Item::Deviant),
-            2 => (any::<bool>(), any::<bool>(), any::<bool>()).prop_map(|(a, b, c)| Item::Unsol(a, b, c)),
+            3 => (any::<bool>(), any::<bool>(), any::<bool>()).prop_map(|(a, b, c)| Item::Unsol(a, b, c)),
             1 => Just(Item::UnsolUnknown),
             1 => prop_oneof![Just(1u16), Just(999), 0u16..400].prop_map(Item::Silence),
         ];
-        let task = prop_oneof![4 => (1u8..=3).prop_map(TaskKind::Read), 3 => Just(TaskKind::Command), 1 => Just(TaskKind::LinkStatus), 1 => Just(TaskKind::Idle)];
-        (task, proptest::collection::vec(item, 1..8), 0u8..4).prop_map(|(task, items, decode)| Case { task, items, decode }).boxed()
+        let planned = prop_oneof![8 => 1u8..=3, 1 => 16u8..=18, 1 => 32u8..=34];
+        let task = prop_oneof![4 => planned.clone().prop_map(TaskKind::Read), 2 => planned.prop_map(TaskKind::Startup), 3 => Just(TaskKind::Command), 1 => Just(TaskKind::LinkStatus), 1 => Just(TaskKind::Idle)];
+        (task, proptest::collection::vec(item, 1..8), 0u8..4, 0u8..3)
+            .prop_map(|(task, items, decode, back)| {
+                // long series: the expected fragments up to 0-2 before the last are delivered first, so that the
+                // generated items hit the positions around the wrap of the sequence number
+                let prefix = match task {
+                    TaskKind::Read(n) | TaskKind::Startup(n) if n > 3 => n - 1 - back.min(n - 1),
+                    _ => 0,
+                };
+                Case { task, items, decode, prefix }
+            })
+            .boxed()
     }
     fn run(case: &Case) -> CaseOut {
         let rt = runtime();
@@ -111,7 +128,7 @@ impl Prop for Accept {
 
 /// objects of planned READ fragment k: three binary inputs with flags, indices unique per fragment
 fn read_objects(k: u8) -> (Vec<u8>, Vec<u16>) {
-    let start = k * 10;
+    let start = k * 4;
     (ra::h_range8(1, 2, start, start + 2, &[0x81, 0x01, 0x81]), vec![start as u16, start as u16 + 1, start as u16 + 2])
 }
 
@@ -156,10 +173,19 @@ fn deliveries(log: Vec<HEv>) -> Result<Vec<Delivery>, String> {
 async fn run_case(case: &Case) -> CaseOut {
     let mut out = CaseOut::default();
     let mut rig = MasterRig::start(true, [case.decode, 0, 0, 0], 2048).await;
-    rig.add_association(OUT_A, assoc_config(TIMEOUT), Some(0)).await;
+    let startup_mode = matches!(case.task, TaskKind::Startup(_));
+    let mut cfg_a = assoc_config(TIMEOUT);
+    if startup_mode {
+        cfg_a.startup_integrity_classes = Classes::all();
+        out.label("startup_poll_outstanding");
+    }
+    rig.add_association(OUT_A, cfg_a, Some(0)).await;
     rig.add_association(OUT_B, assoc_config(TIMEOUT), Some(0)).await;
     rig.connect().await;
-    let _ = rig.take_tx();
+    if !startup_mode {
+        let _ = rig.take_tx();
+    }
+    let read_type = if startup_mode { "StartupIntegrity" } else { "SinglePoll" };
 
     // --- start the task ---
     let mut h = rig.assocs[&OUT_A].handle.clone();
@@ -169,7 +195,7 @@ async fn run_case(case: &Case) -> CaseOut {
             h.operate(CommandMode::DirectOperate, CommandBuilder::single_header_u8(Group12Var1::from_code(ControlCode::from_op_type(OpType::LatchOn)), 3u8)).await
         })),
         TaskKind::LinkStatus => Some(rig.submit("link", async move { h.check_link_status().await })),
-        TaskKind::Idle => None,
+        TaskKind::Idle | TaskKind::Startup(_) => None,
     };
     rig.settle().await;
     let reqs = rig.take_requests();
@@ -183,7 +209,7 @@ async fn run_case(case: &Case) -> CaseOut {
         }
     };
     let planned: u8 = match case.task {
-        TaskKind::Read(n) => n,
+        TaskKind::Read(n) | TaskKind::Startup(n) => n,
         TaskKind::Command => 1,
         _ => 0,
     };
@@ -204,7 +230,12 @@ async fn run_case(case: &Case) -> CaseOut {
     let link_task = case.task == TaskKind::LinkStatus;
     let mut link_done = false;
 
-    for item in &case.items {
+    // unsolicited fragments (by serial number) that reached the handler / that were seen but not accepted
+    let mut unsol_delivered: std::collections::BTreeSet<u8> = Default::default();
+    let mut unsol_ignored: std::collections::BTreeSet<u8> = Default::default();
+    let mut all_log: Vec<HEv> = vec![];
+    let items: Vec<Item> = std::iter::repeat(Item::Good(false)).take(case.prefix.min(planned.saturating_sub(1)) as usize).chain(case.items.iter().cloned()).collect();
+    for item in &items {
         if out.failed() || rig.task_failure.is_some() {
             break;
         }
@@ -219,6 +250,11 @@ async fn run_case(case: &Case) -> CaseOut {
         };
         let mut expect_confirm: Option<(u8, bool, u16)> = None;
         let mut forbid_any_confirm = true;
+        // unsolicited fragment whose acceptance is decided by observation (start-up integrity poll not known complete)
+        let mut observed_unsol: Option<(Fragment, u8)> = None;
+        if next_k >= 16 {
+            out.label("series_past_seq_wrap");
+        }
         match item {
             Item::Silence(ms) => {
                 rig.advance(*ms as u64).await;
@@ -237,7 +273,7 @@ async fn run_case(case: &Case) -> CaseOut {
                     rig.settle().await;
                     if !poisoned {
                         if case.task != TaskKind::Command {
-                            expect_deliveries.push(Delivery::Frag("SinglePoll".into(), f.seq, read_objects(next_k).1));
+                            expect_deliveries.push(Delivery::Frag(read_type.into(), f.seq, read_objects(next_k).1));
                         }
                         if f.con {
                             expect_confirm = Some((f.seq, false, OUT_A));
@@ -370,7 +406,7 @@ async fn run_case(case: &Case) -> CaseOut {
                         3 => {
                             // early FIN: accepted as the final fragment
                             if case.task != TaskKind::Command {
-                                expect_deliveries.push(Delivery::Frag("SinglePoll".into(), f.seq, read_objects(next_k).1));
+                                expect_deliveries.push(Delivery::Frag(read_type.into(), f.seq, read_objects(next_k).1));
                             }
                             if f.con {
                                 expect_confirm = Some((f.seq, false, OUT_A));
@@ -379,7 +415,7 @@ async fn run_case(case: &Case) -> CaseOut {
                         }
                         _ => {
                             // FIN cleared on the planned last READ fragment (CON set): accepted, the master waits for more
-                            expect_deliveries.push(Delivery::Frag("SinglePoll".into(), f.seq, read_objects(next_k).1));
+                            expect_deliveries.push(Delivery::Frag(read_type.into(), f.seq, read_objects(next_k).1));
                             expect_confirm = Some((f.seq, false, OUT_A));
                             next_k += 1;
                             elapsed_since_tx = 0;
@@ -405,19 +441,31 @@ async fn run_case(case: &Case) -> CaseOut {
                         Fragment { fir: true, fin: true, con: *con, uns: true, seq: unsol_seq, func: func::UNSOLICITED_RESPONSE, iin: Some((0, 0)), objects }
                     }
                 };
-                let is_dup = *dup && last_unsol.as_ref() == Some(&f);
+                let repeated = *dup && last_unsol.as_ref() == Some(&f);
                 rig.respond(OUT_A, &f);
                 rig.settle().await;
                 if link_task && !link_done {
                     link_done = true;
                     poisoned = true;
                 }
-                if !is_dup {
-                    let idx = if f.objects.is_empty() { vec![] } else { unsol_objects(unsol_n).1 };
-                    expect_deliveries.push(Delivery::Frag("Unsolicited".into(), f.seq, idx));
+                let integrity_complete = !startup_mode || (task_over == Some(true) && !poisoned);
+                if repeated && unsol_ignored.contains(&unsol_n) {
+                    out.label("unsol_ignored_then_repeated");
                 }
-                if f.con {
-                    expect_confirm = Some((f.seq, true, OUT_A));
+                if integrity_complete {
+                    // a repeat of a fragment that reached the handler is confirmed but not delivered again; a repeat
+                    // of a fragment that was not accepted the first time is new to the handler
+                    if !unsol_delivered.contains(&unsol_n) {
+                        let idx = if f.objects.is_empty() { vec![] } else { unsol_objects(unsol_n).1 };
+                        expect_deliveries.push(Delivery::Frag("Unsolicited".into(), f.seq, idx));
+                        unsol_delivered.insert(unsol_n);
+                    }
+                    if f.con {
+                        expect_confirm = Some((f.seq, true, OUT_A));
+                    }
+                } else {
+                    observed_unsol = Some((f.clone(), unsol_n));
+                    forbid_any_confirm = false;
                 }
                 last_unsol = Some(f);
             }
@@ -434,6 +482,44 @@ async fn run_case(case: &Case) -> CaseOut {
         // --- what the master transmitted in reaction ---
         let tx = rig.take_requests();
         let confirms: Vec<&(u64, u16, Fragment)> = tx.iter().filter(|(_, _, f)| f.func == func::CONFIRM).collect();
+        let log_step = rig.assocs[&OUT_A].read.take();
+        if let Some((f, n)) = observed_unsol {
+            // while the start-up integrity poll is not known to be complete the master may ignore an unsolicited
+            // response or accept it (the statement fixes neither); what it does must be coherent: confirmed and
+            // delivered go together, and nothing is delivered twice
+            let idx = if f.objects.is_empty() { vec![] } else { unsol_objects(n).1 };
+            let d = Delivery::Frag("Unsolicited".into(), f.seq, idx);
+            let delivered_now = deliveries(log_step.clone()).map(|v| v.iter().filter(|x| **x == d).count()).unwrap_or(0);
+            let confirmed_now = confirms.iter().filter(|(_, dst, c)| *dst == OUT_A && c.seq == f.seq && c.uns).count();
+            let already = unsol_delivered.contains(&n);
+            let verdict = if delivered_now > 1 || (delivered_now == 1 && already) {
+                Some("an unsolicited fragment was delivered to the handler more than once")
+            } else if confirmed_now > 1 || (confirmed_now == 1 && !f.con) {
+                Some("an unsolicited fragment was confirmed more than once / without asking for it")
+            } else if f.con && delivered_now == 1 && confirmed_now != 1 {
+                Some("an unsolicited fragment was delivered but its requested confirmation was not sent")
+            } else if confirmed_now == 1 && delivered_now == 0 && !already {
+                Some("an unsolicited fragment was confirmed (accepted) although its contents never reached the handler")
+            } else {
+                None
+            };
+            if let Some(v) = verdict {
+                out.fail(Fail::new("unsolicited-accept-coherence", format!("{v}: fragment {:?}, delivered now {delivered_now}, confirmed now {confirmed_now}, delivered before {already}", f)).with_sig(format!("C15 unsol coherence d={delivered_now} c={confirmed_now} before={already}")));
+            }
+            if delivered_now == 1 {
+                unsol_delivered.insert(n);
+                expect_deliveries.push(d);
+            } else if !already {
+                unsol_ignored.insert(n);
+            }
+        }
+        all_log.extend(log_step);
+        if startup_mode && (task_over == Some(false) || poisoned) {
+            // the master retries a failed integrity poll on its own schedule (with later sequence numbers): from
+            // here on a generated fragment may happen to answer a retry, so later traffic is not judged strictly
+            poisoned = true;
+            maybe_extra_ok = true;
+        }
         match expect_confirm {
             Some((seq, uns, dst)) => {
                 let matching = confirms.iter().filter(|(_, d, f)| *d == dst && f.seq == seq && f.uns == uns).count();
@@ -487,8 +573,8 @@ async fn run_case(case: &Case) -> CaseOut {
         }
     }
     // --- deliveries ---
-    let log = rig.assocs[&OUT_A].read.take();
-    match deliveries(log) {
+    all_log.extend(rig.assocs[&OUT_A].read.take());
+    match deliveries(all_log) {
         Err(e) => out.fail(Fail::new("handler-bracketing", e)),
         Ok(got) => {
             if !poisoned && got != expect_deliveries {
